@@ -12,7 +12,7 @@ from . import ops
 from .ops import (Pending, num_binop, num_cmp, b_and, b_or, b_not, b_implies, v_ite, v_eq, as_view, v_len,
                   norm_index, v_slice, v_concat, v_append, v_store, conc_seq_view, range_view)
 from . import source
-from .contract import Contract, Loop
+from .contract import Contract, Loop, AbsMap
 
 BUILTIN_EXC_BASES = {
     'BaseException': None, 'Exception': 'BaseException', 'ArithmeticError': 'Exception',
@@ -172,14 +172,34 @@ class Engine:
                                            fr.qual, line, kind.split('#')[0], note))
 
     def site(self, node, kind):
-        """Stable ordinal of an AST node among the nodes that produce obligations of `kind` in this function."""
+        """Stable name of the source site of an obligation: the pre-order ordinal of the statement that contains
+        the line, within the function being verified (independent of path exploration order)."""
         fr = self.frame
-        key = (kind,)
-        tbl = fr.sites.setdefault(key, {})
-        k = (getattr(node, 'lineno', 0), getattr(node, 'col_offset', 0))
-        if k not in tbl:
-            tbl[k] = len(tbl)
-        return '%s#%d' % (kind, tbl[k])
+        line = getattr(node, 'lineno', 0)
+        top = self.frames[0] if self.frames else fr
+        for f in self.frames:
+            if f.contract is not None:
+                top = f
+                break
+        tbl = getattr(top, '_stmt_rank', None)
+        if tbl is None:
+            tbl = {}
+            fnode = top.mod.functions.get(top.qual) if hasattr(top.mod, 'functions') else None
+            if fnode is not None:
+                k = 0
+                for n in ast.walk(fnode):
+                    pass
+                stmts = sorted({(n.lineno, n.col_offset) for n in ast.walk(fnode) if isinstance(n, ast.stmt)})
+                for i, key in enumerate(stmts):
+                    tbl.setdefault(key[0], i)
+            top._stmt_rank = tbl
+        if line in tbl:
+            return '%s#%d' % (kind, tbl[line])
+        # a line of an inlined callee (another function): relative to that callee
+        fn = fr.mod.functions.get(fr.qual) if hasattr(fr.mod, 'functions') else None
+        if fn is not None and hasattr(fn, 'lineno'):
+            return '%s#%s+%d' % (kind, fr.qual.split('.')[-1], line - fn.lineno)
+        return '%s#L%d' % (kind, line)
 
     def throw(self, st, exc_cls, node=None):
         """Record an exceptional outcome for state st (consumed by the enclosing statement)."""
@@ -376,6 +396,9 @@ class Engine:
         if name in st.env:
             return st.env[name]
         fr = self.frame
+        for f in reversed(self.frames):
+            if f.contract is not None and name in getattr(f.contract, 'globals_', {}):
+                return f.contract.globals_[name]
         v = self.module_name(fr.mod, name)
         if v is not NotImplemented:
             return v
@@ -594,6 +617,8 @@ class Engine:
         return num_cmp(o, a, b)
 
     def contains(self, container, x):
+        if isinstance(container, AbsMap):
+            return self.absmap_funcs(container)(to_int(x))
         if isinstance(container, Tup):
             return b_or(*[v_eq(x, y) for y in container.items])
         if isinstance(container, SetVal):
@@ -803,8 +828,24 @@ class Engine:
         a, b = to_int(a), to_int(b)
         return z3.SubString(t, a, z3.If(b - a < 0, z3.IntVal(0), b - a))
 
+    def absmap_funcs(self, m):
+        dom = z3.Function('dom_' + m.name, z3.IntSort(), z3.BoolSort())
+        return dom
+
+    def absmap_get(self, m, k):
+        return fresh(m.val_kind, 'val_' + m.name, (k,), None)
+
     def index(self, v, i, st, node):
         """v[i] with Python semantics; IndexError / KeyError paths are forked."""
+        if isinstance(v, AbsMap):
+            dom = self.absmap_funcs(v)
+            st = self.fork_exc(st, dom(to_int(i)), 'KeyError', node)
+            if st.dead:
+                return []
+            val = self.absmap_get(v, i)
+            if isinstance(val, Rec) and isinstance(v.val_kind, KRec) and not self.pure:
+                val = self.rec_to_obj(val, st)
+            return [(st, val)]
         if isinstance(v, DictVal):
             keys = list(v.d.keys())
             if isinstance(i, Tup) and is_concrete(i):
@@ -2003,6 +2044,9 @@ class Engine:
                 env_now = dict(fr.old[0])
                 for g in getattr(c, 'ghost_init', {}):
                     env_now[g] = s.env.get(g)
+                for p_ in c.params:
+                    if p_ in s.env:
+                        env_now['final_' + p_] = s.env[p_]
                 # parameters in postconditions denote entry values except mutable objects (same reference)
                 post = State()
                 post.env = env_now
@@ -2093,6 +2137,40 @@ class Engine:
         m = z3.Int(uid(lem.var))
         allc = self.spec_bool(lem.claim, post, {lem.var: m}, fr.old)
         s.assume(z3.ForAll([m], z3.Implies(z3.And(to_int(lo) <= m, m <= to_int(hi)), to_bool_term(allc))))
+
+    def verify_lemma(self, lem):
+        from .source import ModuleInfo
+        class _M:
+            relpath = '<lemma>'
+            functions = {}
+            classes = {}
+            assigns = {}
+            imports = {}
+        c = Contract('<lemma>', lem.name)
+        fr = Frame(_M(), lem.name, c)
+        self.frames.append(fr)
+        self.sinks.append([])
+        try:
+            st = State()
+            facts = []
+            for p, k in lem.params.items():
+                v = fresh(k, p, (), facts)
+                if isinstance(k, KRec):
+                    v = self.rec_to_obj(v, st)
+                st.env[p] = v
+            for f in facts:
+                st.assume(f)
+            fr.old = (dict(st.env), {k: HObj(o.cls, dict(o.fields)) for k, o in st.heap.items()})
+            for r in lem.requires:
+                st.assume(self.spec_bool(r, st, None, fr.old))
+            ob = Obligation('<lemma>:%s/cover-pre' % lem.name, list(st.pc), z3.BoolVal(False), lem.name, 0, 'cover')
+            ob.expect_fail = True
+            self.obligations.append(ob)
+            for i, e in enumerate(lem.ensures):
+                self.oblige(st, 'lemma#%d' % i, self.spec_bool(e, st, None, fr.old), None, note=e)
+        finally:
+            self.sinks.pop()
+            self.frames.pop()
 
     def rec_to_obj(self, rec, st):
         fields = {}
